@@ -148,7 +148,7 @@ def gen_case(rng, pid, uid):
         if rng.random() < 0.5:
             # ... or b's class derives from a's class and adds markers / feedback getters of its own
             ex_r = [{"attr": f"x{j}", "default": rng.choice(defaults)} for j in range(rng.choice([1, 2]))]
-            ex_f = [_gen_fb(rng, fbnames, 20 + j, uid) for j in range(rng.choice([0, 1, 2]))]
+            ex_f = [_gen_fb(rng, fbnames, 1000 + j, uid) for j in range(rng.choice([0, 1, 2]))]      # (numbered well above the base class's own getters: up to 40 of those)
             for f_ in ex_f:
                 f_["same_object"] = False
             comps[b]["extra_resets"] = ex_r
